@@ -472,9 +472,27 @@ func HistoryTree.AddBulk
   ensures forall k int :: 0 <= k && k < len(eventDigests) ==> eventDigests[k] == old(eventDigests[k])
 // (ghost bookkeeping: that a membership proof was asked for, and for which version - the
 // audit-path visitor panics on a node the tree does not have, i.e. for a version beyond the log)
+// The membership prover's wiring (as for ProveConsistency below; completeness - that the pruning
+// collects every node the verifier reads - is not decided): the proof carries the index and the
+// version asked for, and its audit path was collected from a membership pruning of exactly that
+// pair (pruneToFind is the special case index == version).
+// ASSUMED (definition of the ghosts; the prunings themselves are not verified):
+func pruneToFind
+  modifies membPrunes, lastMembIndex, lastMembVersion
+  assumes membPrunes == old(membPrunes) + 1 && lastMembIndex == version && lastMembVersion == version && !isnil(result)
+func pruneToFindConsistent
+  modifies membPrunes, lastMembIndex, lastMembVersion
+  assumes membPrunes == old(membPrunes) + 1 && lastMembIndex == index && lastMembVersion == version && !isnil(result)
 func HistoryTree.ProveMembership
-  modifies everything, proveCalls, lastProveVersion
+  props C02 C11
+  requires HistProver(t)
+  unchecked_panics
+  modifies everything, proveCalls, lastProveVersion, membPrunes, lastMembIndex, lastMembVersion
+  // (definition of the ghosts C11 uses: a call is recorded with the version it was made for)
   assumes proveCalls == old(proveCalls) + 1 && lastProveVersion == version
+  ensures isnil(result_1) ==> result_0 != nil
+  ensures C02,C11/proof-carries-what-was-asked: isnil(result_1) ==> result_0.Index == index && result_0.Version == version
+  ensures C02,C11/path-from-the-membership-pruning-of-the-pair: isnil(result_1) ==> membPrunes == old(membPrunes) + 1 && lastMembIndex == index && lastMembVersion == version
 // C03, the prover's wiring (that the pruning collects every node the verifier will read is the
 // prover's completeness, not decided): a consistency proof for (start, end) carries those two
 // versions and the audit path collected from THE CONSISTENCY PRUNING OF THAT PAIR - for every
